@@ -44,7 +44,7 @@ fn fate_str(f: &Fate) -> String {
 impl Oracle for Tracer {
     fn on(&mut self, rec: &Rec, _cx: &Cx) -> Option<Violation> {
         match rec {
-            Rec::Call { call, t_ns, local_ms, ep, op, skipped } => {
+            Rec::Call { call, t_ns, local_ms, ep, op, skipped, .. } => {
                 if self.verbose || !matches!(op, Op::Step { .. } | Op::StepEvery { .. }) {
                     let mut j = op_to_json(op);
                     if let Some(m) = j.as_object_mut() {
